@@ -288,6 +288,7 @@ package server
 // (a session whose destination the hook rewrote never consults the cache)
 //@ spec func cacheOK(e) = e.aclCache != nil && e.OverrideAddr == "" ==> forallKey(a, e.aclCache, isnil(e.aclCache[a]) == allowUDP(payload(e.IO), a))
 //@ objinv udpSessionEntry: cacheOK(this) && this.D != nil && this.Last != nil && !isnil(this.IO) && (isnil(this.conn) ==> this.OverrideAddr == "")
+//@ objinv udpSessionEntry: sockInv(this)
 
 //@ func (*udpSessionEntry).checkAddr
 //@   props C08
@@ -310,9 +311,10 @@ package server
 //@   modifies any
 
 //@ func (*udpSessionEntry).initConn
-//@   props C08
+//@   props C08 C07
 //@   nonil
 //@   requires firstMsg != nil && isnil(e.conn) && e.OverrideAddr == ""
+//@   ensures (isnil(ret) ==> selBool(connOpen, e) && !e.closed) && (old(e.closed) ==> !isnil(ret) && isnil(e.conn) && connOpen == old(connOpen))
 //@   ensures isnil(ret) ==> !isnil(e.conn) && (e.OverrideAddr == "" ==> allowUDP(payload(e.IO), firstMsg.Addr))
 //@   ensures isnil(ret) && e.OverrideAddr != "" ==> allowUDP(payload(e.IO), e.OverrideAddr) && e.OriginalAddr == firstMsg.Addr
 //@   modifies any
@@ -339,7 +341,7 @@ package server
 //@   requires !isnil(e.conn)
 //@   modifies any
 //@   loop 0
-//@     invariant !isnil(e.conn) && len(udpBuf) == 4096 && len(msgBuf) == 4096 && base(udpBuf) != base(msgBuf) && !isnil(e.IO) && e.Last != nil
+//@     invariant !isnil(e.conn) && len(udpBuf) == 4096 && len(msgBuf) == 4096 && base(udpBuf) != base(msgBuf) && !isnil(e.IO) && e.Last != nil && sockInv(e)
 
 //@ iface udpIO.SendMessage(io, buf, msg) (err)
 //@   modifies buf[0:len(buf)]
@@ -420,3 +422,32 @@ package server
 //@     invariant sel(wlen, cSnk(dst)) - old(sel(wlen, cSnk(dst))) == sel(rpos, cSrc(src)) - old(sel(rpos, cSrc(src))) && sel(rpos, cSrc(src)) >= old(sel(rpos, cSrc(src)))
 //@     invariant logSum - old(logSum) == sel(rpos, cSrc(src)) - old(sel(rpos, cSrc(src)))
 //@     invariant forall(i, 0, sel(wlen, cSnk(dst)) - old(sel(wlen, cSnk(dst))), sel(wdata, cSnk(dst), old(sel(wlen, cSnk(dst))) + i) == sel(rdata, cSrc(src), old(sel(rpos, cSrc(src))) + i))
+
+// ---------------------------------------------------------------------------
+// Session sockets (C07), per entry, as a sequential object under connLock: connOpen[e] says
+// the socket obtained by e's dial is open. It is closed at most once, only by CloseWithErr,
+// never dialled after the session exited, and a closed session has no open socket.
+//@ ghost var connOpen (Array Int Bool)
+//@ hook after call udpSessionEntry.DialFunc(this, addr, data) (conn, actual, err) in (*udpSessionEntry).initConn
+//@   when isnil(err)
+//@   update connOpen = upd(connOpen, this, true)
+//@ guard call udpSessionEntry.DialFunc(this, addr, data) in (*udpSessionEntry).initConn
+//@   props C07
+//@   requires !e.closed && isnil(e.conn) && !selBool(connOpen, e)
+//@ hook call UDPConn.Close(c) in (*udpSessionEntry).CloseWithErr
+//@   update connOpen = upd(connOpen, e, false)
+//@ guard call UDPConn.Close(c) in (*udpSessionEntry).CloseWithErr
+//@   props C07
+//@   requires c == e.conn && selBool(connOpen, e)
+//@ guard call udpSessionEntry.ExitFunc(this, err2) in (*udpSessionEntry).CloseWithErr
+//@   props C07
+//@   requires e.closed && !selBool(connOpen, e)
+//@ spec func sockInv(e) = (selBool(connOpen, e) ==> !isnil(e.conn) && !e.closed) && (!isnil(e.conn) && !e.closed ==> selBool(connOpen, e))
+//@ func (*udpSessionEntry).CloseWithErr
+//@   props C07 C08
+//@   nonil
+//@   ensures e.closed && !selBool(connOpen, e)
+//@   ensures old(e.closed) ==> connOpen == old(connOpen)
+//@   modifies e.closed, connOpen
+//@ structural C07: stores udpSessionEntry.closed in (*udpSessionEntry).CloseWithErr value true
+//@ structural C07: calls UDPConn.Close in (*udpSessionEntry).CloseWithErr
